@@ -47,10 +47,12 @@ def _valid(c):
     return s.check() == z3.unsat
 
 
-def _static_unit(fder, nEF, additive, k_resolved, hole_like=False, use_factor=True, tiers=("quick", "thorough")):
+def _static_unit(fder, nEF, additive, k_resolved, hole_like=False, use_factor=True, tiers=("quick", "thorough"), prop="C13", nk_int=1):
     name = "StaticCalculator.__call__[fder=%d,nEF=%d,%s,%s%s%s]" % (fder, nEF, "additive" if additive else "non-additive",
                                                                    "k-resolved" if k_resolved else "integrated",
                                                                    ",hole_like" if hole_like else "", "" if use_factor else ",use_factor=False")
+    if nk_int != 1:
+        name += "[%d k-points]" % nk_int
 
     def prove(U):
         results = []
@@ -83,7 +85,7 @@ def _static_unit(fder, nEF, additive, k_resolved, hole_like=False, use_factor=Tr
             if i < ngrid - 1:
                 classes.append(EFmin + i * d + 0.1)
         classes.append(EFmin + (ngrid - 1) * d + 0.3)
-        nk = 2 if k_resolved else 1
+        nk = 2 if k_resolved else nk_int
         NB = 4
         layouts = [[(0, 1), (1, 3), (3, 4)], [(0, 2), (2, 4)]] if additive else [[(0, 1), (1, 3)]]
 
@@ -180,7 +182,7 @@ def _static_unit(fder, nEF, additive, k_resolved, hole_like=False, use_factor=Tr
                     ok = ok and _valid(lift(out[j]) == lift(want) * sgn / 2.0 / nk)
             U.ensure("out[j] = c/(V nk) * (n-th central difference of) the sum over groups with E_g <= E_F of the formula's trace", ok)
         U.run(body, check_feasible=False, max_paths=400000)
-    Unit("C13", name, prove=prove, scope="shape:nEF=%d, <=3 groups/k, every energy class of the extended Fermi grid" % nEF, expect_min=4, tiers=tiers)
+    Unit(prop, name, prove=prove, scope="shape:nEF=%d, <=3 groups/k, every energy class of the extended Fermi grid" % nEF, expect_min=4, tiers=tiers)
 
 
 class _SuperInit:
